@@ -15,7 +15,9 @@
 package primitive
 
 import (
+	"bytes"
 	"fmt"
+	"io"
 )
 
 // SupportedProtocolVersions returns a slice containing all the protocol versions supported by this library.
@@ -216,4 +218,24 @@ func BoundedCapacity(count int32) int {
 		return maxInitialCapacity
 	}
 	return int(count)
+}
+
+// ReadContent reads exactly length bytes from source. The length was read from the wire: up to a bound the buffer is
+// allocated at once, beyond it the buffer grows as the content actually arrives, so that a few bytes declaring a content
+// of two gigabytes cannot make a decoder allocate two gigabytes. Returns io.ErrUnexpectedEOF when source is exhausted first.
+func ReadContent(source io.Reader, length int32) ([]byte, error) {
+	const maxInitialLength = 1 << 20
+	if length <= maxInitialLength {
+		decoded := make([]byte, length)
+		_, err := io.ReadFull(source, decoded)
+		return decoded, err
+	}
+	buf := bytes.NewBuffer(make([]byte, 0, maxInitialLength))
+	if _, err := io.CopyN(buf, source, int64(length)); err != nil {
+		if err == io.EOF {
+			err = io.ErrUnexpectedEOF
+		}
+		return nil, err
+	}
+	return buf.Bytes(), nil
 }
